@@ -289,6 +289,9 @@ class BitStringPayloadDecoder(AbstractSimplePayloadDecoder):
 
 class OctetStringPayloadDecoder(AbstractSimplePayloadDecoder):
     protoComponent = univ.OctetString('')
+    # Fragments of a constructed string encoding are always OCTET STRINGs
+    # even if the string itself is of some other (e.g. character) type
+    fragmentComponent = univ.OctetString('')
     supportConstructedForm = True
 
     def valueDecoder(self, substrate, asn1Spec,
@@ -327,7 +330,7 @@ class OctetStringPayloadDecoder(AbstractSimplePayloadDecoder):
         # head = popSubstream(substrate, length)
         while substrate.tell() - original_position < length:
             for component in decodeFun(
-                    substrate, self.protoComponent, substrateFun=substrateFun,
+                    substrate, self.fragmentComponent, substrateFun=substrateFun,
                     **options):
                 if isinstance(component, SubstrateUnderrunError):
                     yield component
@@ -356,7 +359,7 @@ class OctetStringPayloadDecoder(AbstractSimplePayloadDecoder):
         while True:  # loop over fragments
 
             for component in decodeFun(
-                    substrate, self.protoComponent, substrateFun=substrateFun,
+                    substrate, self.fragmentComponent, substrateFun=substrateFun,
                     allowEoo=True, **options):
 
                 if isinstance(component, SubstrateUnderrunError):
